@@ -8,8 +8,17 @@
 (*              issued for a base, with one field perturbed; q carries the *)
 (*              inputs the verifier saw (h = the VRF value of the proof,   *)
 (*              j = the claimed seat count)                                *)
-(*   priority : the per-seat hashes keccak(h || i), i = 0..j, and what     *)
-(*              computePriority returned                                   *)
+(*   priority : the per-seat hashes, i = 0..j, and what computePriority    *)
+(*              returned.  PROTOCOL DEFINITION of the per-seat hash        *)
+(*              (transcribed from the unchanged computePriority, shared by *)
+(*              prover and verifier): seat i has keccak256(h || I2OSP(i)), *)
+(*              I2OSP(i) = the minimal BIG-ENDIAN bytes of i (empty for 0, *)
+(*              one byte up to 255, 0x01 0x00 for 256, ...); the driver    *)
+(*              computes these reference hashes itself                     *)
+(*   seq_issue / seq_verify : operations of a generated sequence, executed *)
+(*              in one process in this order (Sortition.tla, NextSeq): a   *)
+(*              credential issued for tuple c = (key, seed, index, step)   *)
+(*              is presented with the inputs of tuple `as`                 *)
 (* Exact binomial tails: the scan over the seats 0..j is done as TLC       *)
 (* TRANSITIONS (one state per seat: term, cum), so every big value is      *)
 (* computed once.                                                          *)
@@ -27,12 +36,14 @@ EXTENDS SortitionDefs
 
 TraceLog == ndJsonDeserialize("trace.ndjson")
 
-VARIABLES l, pc, i, term, cum, prev, den, viol, fired, inexact
-vars == <<l, pc, i, term, cum, prev, den, viol, fired, inexact>>
+VARIABLES l, pc, i, term, cum, prev, den, viol, fired, inexact,
+          iss      \* sequences: the <<tuple, VRF output>> pairs issued so far in the current behaviour
+vars == <<l, pc, i, term, cum, prev, den, viol, fired, inexact, iss>>
 
 Keys == {"QuantileExact", "QuantileExact_endpoint", "QuantileExact_upper_tail", "QuantileExact_small_mean", "QuantileExact_large_mean",
          "QuantileExact_p_is_1", "JWithinStake", "VerifierRecomputes", "VerifierRecomputes_issued_selected", "VerifierRecomputes_recompute_accepted",
          "VerifierRecomputes_recompute_rejected", "PerturbationRejected", "PerturbationRejected_selected", "PriorityIsMax", "PriorityIsMax_several_seats",
+         "PerturbationRejected_tail", "PriorityIsMax_two_byte_seats", "SeqIssue", "SeqVerify_as_issued", "SeqVerify_perturbed",
          "skipped", "scan_steps", "max_bits"}
 
 Live(e) == "skip" \notin DOMAIN e /\ "panic" \notin DOMAIN e
@@ -73,6 +84,9 @@ IsMax(e) ==
    /\ \A n \in DOMAIN ss : BigLeq(ss[n], p)
    /\ e.prio2 = e.prio
 
+DiffField(c, t) == IF c.k # t.k THEN "key" ELSE IF c.ix # t.ix THEN "index" ELSE IF c.st # t.st THEN "step"
+                   ELSE "seed_" \o (IF c.sv = "A" THEN t.sv ELSE IF t.sv = "A" THEN c.sv ELSE "variants")
+
 \* judgement of a line that does not need the tails
 JudgePlain(e) ==
    IF "skip" \in DOMAIN e THEN [v |-> {}, f |-> {"skipped"}]
@@ -86,23 +100,41 @@ JudgePlain(e) ==
          THEN [v |-> IF e.accept = (e.fn = "priority" \/ e.ji > 0) THEN {} ELSE { <<"VerifierRecomputes", {e.fn, "issued", IF e.accept THEN "accepted" ELSE "rejected"}>> },
                f |-> {"VerifierRecomputes"} \cup (IF e.ji > 0 THEN {"VerifierRecomputes_issued_selected"} ELSE {})]
          ELSE IF e.expect = "reject"
-         THEN [v |-> IF e.accept THEN { <<"PerturbationRejected", {e.fn, e.pert}>> } ELSE {},
-               f |-> {"PerturbationRejected"} \cup (IF e.ji > 0 \/ e.fn = "priority" THEN {"PerturbationRejected_selected"} ELSE {})]
+         THEN [v |-> IF e.accept THEN { <<"PerturbationRejected", {e.fn, e.pert} \cup (IF "tail" \in DOMAIN e THEN {"upper_tail"} ELSE {})>> } ELSE {},
+               f |-> {"PerturbationRejected"} \cup (IF e.ji > 0 \/ e.fn = "priority" THEN {"PerturbationRejected_selected"} ELSE {})
+                     \cup (IF "tail" \in DOMAIN e THEN {"PerturbationRejected_tail"} ELSE {})]
          ELSE \* recompute with a claimed j outside 0..w' (or outside the domain): it cannot be the quantile
               [v |-> IF e.accept /\ Domain(e.q) THEN { <<"VerifierRecomputes", {e.fn, e.pert, "accepted"}>> } ELSE {},
                f |-> {"VerifierRecomputes", IF e.accept THEN "VerifierRecomputes_recompute_accepted" ELSE "VerifierRecomputes_recompute_rejected"}])
    ELSE IF e.ev = "priority"
    THEN [v |-> IF IsMax(e) THEN {} ELSE { <<"PriorityIsMax", {"computePriority"}>> },
-         f |-> {"PriorityIsMax"} \cup (IF e.j >= 1 THEN {"PriorityIsMax_several_seats"} ELSE {})]
+         f |-> {"PriorityIsMax"} \cup (IF e.j >= 1 THEN {"PriorityIsMax_several_seats"} ELSE {})
+                                 \cup (IF e.j >= 256 THEN {"PriorityIsMax_two_byte_seats"} ELSE {})]
+   ELSE IF e.ev = "seq_issue"
+   \* "its proofs bind all inputs": the VRF output depends on all of key, seed, index, step (two different tuples never get the same
+   \* output -- otherwise the credential of one is a credential of the other), and it is a function of them
+   THEN [v |-> { <<"PerturbationRejected", {"issue", "same_output", DiffField(p[1], e.tup)}>> : p \in { x \in iss : x[1] # e.tup /\ x[2] = e.h } }
+               \cup { <<"VerifierRecomputes", {"issue", "output_changed"}>> : p \in { x \in iss : x[1] = e.tup /\ x[2] # e.h } },
+         f |-> {"SeqIssue"}]
+   ELSE IF e.ev = "seq_verify"
+   \* "accepts a credential only for the exact key, seed, round index, step ... it was issued for" -- whatever was evaluated before
+   THEN (IF "panic" \in DOMAIN e THEN [v |-> { <<"VerifierRecomputes", {"sequence", "panic"}>> }, f |-> {}]
+         ELSE IF e.c = e.as
+         THEN [v |-> IF e.accept = (e.ji > 0) THEN {} ELSE { <<"VerifierRecomputes", {"sortition", "issued", "sequence", IF e.accept THEN "accepted" ELSE "rejected"}>> },
+               f |-> {"SeqVerify_as_issued"}]
+         ELSE [v |-> IF e.accept THEN { <<"PerturbationRejected", {"sortition", "sequence", DiffField(e.c, e.as)}>> } ELSE {},
+               f |-> {"SeqVerify_perturbed"}])
    ELSE [v |-> {}, f |-> {}]
 
 Init == /\ l = 1 /\ pc = "next" /\ i = 0 /\ term = Zero /\ cum = Zero /\ prev = Zero /\ den = Zero
-        /\ viol = {} /\ fired = [k \in Keys |-> 0] /\ inexact = {}
+        /\ viol = {} /\ fired = [k \in Keys |-> 0] /\ inexact = {} /\ iss = {}
 
 Finish(r, steps, bits) ==
    /\ viol' = viol \cup { <<x[1], x[2], l>> : x \in r.v }
    /\ fired' = Bump2(r.f, steps, bits)
    /\ l' = l + 1 /\ pc' = "next" /\ i' = 0 /\ term' = Zero /\ cum' = Zero /\ prev' = Zero /\ den' = Zero
+   /\ iss' = LET e == TraceLog[l] IN
+             IF e.ev \in {"reset", "abort"} THEN {} ELSE IF e.ev = "seq_issue" THEN iss \cup {<<e.tup, e.h>>} ELSE iss
 
 Tails(e, D, pv, cm) ==
    LET h == H(e) j == e.q.j
@@ -123,8 +155,8 @@ Step ==
                    /\ inexact' = IF r.x THEN inexact \cup {l} ELSE inexact
               ELSE /\ pc' = "scan" /\ i' = 0 /\ den' = Den(e.q.w, e.q.b)
                    /\ term' = Term0(e.q.w, e.q.a, e.q.b) /\ cum' = Term0(e.q.w, e.q.a, e.q.b) /\ prev' = Zero
-                   /\ UNCHANGED <<l, viol, fired, inexact>>
-         ELSE /\ Finish(IF e.ev \in {"choose", "verify", "priority"} THEN JudgePlain(e) ELSE [v |-> {}, f |-> {}], 0, 0)
+                   /\ UNCHANGED <<l, viol, fired, inexact, iss>>
+         ELSE /\ Finish(IF e.ev \in {"choose", "verify", "priority", "seq_issue", "seq_verify"} THEN JudgePlain(e) ELSE [v |-> {}, f |-> {}], 0, 0)
               /\ UNCHANGED inexact
    \/ /\ pc = "scan"
       /\ LET e == TraceLog[l] q == e.q IN
@@ -134,7 +166,7 @@ Step ==
               /\ inexact' = IF r.x THEN inexact \cup {l} ELSE inexact
          ELSE LET nt == NextTerm(term, i, q.w, q.a, q.b)[1] IN
               /\ i' = i + 1 /\ term' = nt /\ prev' = cum /\ cum' = BigAdd(cum, nt)
-              /\ UNCHANGED <<l, pc, den, viol, fired, inexact>>
+              /\ UNCHANGED <<l, pc, den, viol, fired, inexact, iss>>
 
 Spec == Init /\ [][Step]_vars
 
